@@ -814,7 +814,59 @@ def r6_graph_urls(ctx, rep):
            "FortranBase.__str__ no longer tests `visible` before emitting a link", py.nloc(fn))
 
 
+def r7_pageable_entities_get_pages(ctx, rep):
+    """every entity whose get_url() names its own page (get_dir() is not None) is gathered into a
+    project list from which pages are written."""
+    py = ctx.py
+    from . import c05
+    base = py.func("FortranBase.get_dir")
+    tuples = [n for n in ast.walk(base) if isinstance(n, ast.Call) and isinstance(n.func, ast.Name)
+              and n.func.id == "isinstance" and isinstance(n.args[1], ast.Tuple)]
+    nested = [t for t in tuples if ast.unparse(t.args[0]) == "self" and any(
+        isinstance(e, ast.Name) and e.id == "FortranType" for e in t.args[1].elts)]
+    parents = [t for t in tuples if ast.unparse(t.args[0]) == "self.parent"]
+    if not nested or not parents:
+        raise AnalysisError("FortranBase.get_dir: nested-entity rule not found")
+    pageable = [e.id for e in nested[0].args[1].elts if isinstance(e, ast.Name)]
+    parent_classes = [e.id for e in parents[0].args[1].elts if isinstance(e, ast.Name)]
+    lists = sorted(l for l, c in c05.LIST_ELEM.items() if any(py.is_subclass(c, p) for p in pageable))
+    fn = py.func("Project.correlate")
+    cont = None
+    for n in ast.walk(fn):
+        if isinstance(n, ast.Assign) and ast.unparse(n.targets[0]) == "CONTAINERS" and isinstance(n.value, ast.Dict):
+            cont = {k.value: v.value for k, v in zip(n.value.keys, n.value.values)}
+    if cont is None:
+        raise AnalysisError("Project.correlate: CONTAINERS not found")
+    gather = [n for n in ast.walk(fn) if isinstance(n, ast.For) and "CONTAINERS.items()" in ast.unparse(n.iter)]
+    unit_loop = py.parents[gather[0]] if gather else None
+    units_txt = ast.unparse(unit_loop.iter) if isinstance(unit_loop, ast.For) else ""
+    epm = entity_page_map(py)
+    unit_attr = {"FortranModule": "modules", "FortranSubmodule": "submodules", "FortranProgram": "programs",
+                 "FortranBlockData": "blockdata"}
+    for ucls, attr in unit_attr.items():
+        if ucls not in parent_classes:
+            continue
+        ok_units = f"sfile.{attr}" in units_txt
+        owned = all_self_attrs(py, ucls)
+        for l in lists:
+            if l not in owned:
+                continue
+            ok = ok_units and l in cont and cont[l] in epm
+            rep.ob(f"{ucls}.{l} gathered into a paged project list", ok,
+                   f"CONTAINERS[{l!r}] = {cont.get(l)!r}, pages are created for project.{cont.get(l)}" if ok else
+                   (f"get_dir() gives members of {ucls}.{l} their own page URL and the templates link to it, but "
+                    f"Project.correlate does not gather `{l}` of {attr} into a project list that Documentation turns into "
+                    f"pages (CONTAINERS keys: {sorted(cont)}; units iterated: {units_txt}): the links dangle"),
+                   py.nloc(gather[0]) if gather else py.nloc(fn))
+    # top-level procedures and units are registered at parse time
+    ff = ast.unparse(py.func("Project._fortran_file"))
+    for lst in ("modules", "submodules", "procedures", "programs", "blockdata", "files"):
+        ok = f"self.{lst}.append(" in ff and (lst in epm or lst == "files")
+        rep.ob(f"top-level {lst} registered and paged", ok, "", "ford/fortran_project.py", nontrivial=False)
+
+
 RULES = [
+    RuleSpec("C09.R7", r7_pageable_entities_get_pages, "entities that have a page URL get a page", floor=12),
     RuleSpec("C09.R1", r1_list_pages, "list-page / singular-link guard implies page creation", floor=12),
     RuleSpec("C09.R2", r2_anchors, "sidebar anchor use implies anchor definition", floor=30),
     RuleSpec("C09.R3", r3_relurl, "link-bearing values pass relurl", floor=25),
